@@ -434,20 +434,22 @@ def const_formats(src):
     r = find_function(src, 'out_op')
     if r is not None:
         body = re.sub(r'"\s+"', '', r[1])          # adjacent string literals ("%" PRId64 after the preprocessor)
-    for mode, fmt, arg, name in (('MIR_OP_INT', '%ld', 'op.u.i', 'FmtD64'), ('MIR_OP_UINT', '%lu', 'op.u.u', 'FmtU64')):
-        m = re.search(r'case\s+%s\s*:\s*fprintf\s*\(\s*f\s*,\s*"([^"]*)"\s*,\s*([\w.]+)\s*\)\s*;\s*break\s*;' % mode, body)
-        if m and m.group(1) == fmt and m.group(2) == arg:
-            out.append(name)
-        else:
-            out.append(None)
+    names = {'%ld': 'FmtD64', '%lu': 'FmtU64'}
+    for mode in ('MIR_OP_INT', 'MIR_OP_UINT'):
+        m = re.search(r'case\s+%s\s*:\s*fprintf\s*\(\s*f\s*,\s*"([^"]*)"\s*,\s*op\.u\.[iu]\s*\)\s*;\s*break\s*;' % mode, body)
+        out.append(names.get(m.group(1)) if m else None)      # op.u.i and op.u.u are the same 64 bits
     if None in out:
         probed = probe_consts()
-        for k, (name, vals, tag) in enumerate((('FmtD64', PROBE_CONSTS, 'i'), ('FmtU64', PROBE_UCONSTS, 'u'))):
+        for k, (vals, tag) in enumerate(((PROBE_CONSTS, 'i'), (PROBE_UCONSTS, 'u'))):
             if out[k] is None:
-                ok = probed is not None and all(probed.get((tag, v)) == str(v) for v in vals)
-                out[k] = name if ok else 'FmtOther'
-                if ok:
-                    NOTES.append('%s operands: format read from the printed text of %d boundary constants' % ('MIR_OP_INT' if tag == 'i' else 'MIR_OP_UINT', len(vals)))
+                out[k] = 'FmtOther'
+                for name, conv in (('FmtD64', lambda v: v - (1 << 64) if (v & ((1 << 64) - 1)) >> 63 and v >= 0 else v),
+                                   ('FmtU64', lambda v: v & ((1 << 64) - 1))):
+                    if probed is not None and all(probed.get((tag, v)) == str(conv(v)) for v in vals):
+                        out[k] = name
+                        NOTES.append('%s operands: format %s read from the printed text of %d boundary constants' % (
+                            'MIR_OP_INT' if tag == 'i' else 'MIR_OP_UINT', name, len(vals)))
+                        break
     return out
 
 
